@@ -270,9 +270,9 @@ class FlowPath:
         self.chain = [StartLink(times, inlet_temperature)]
 
         # Solver parameters
-        self.rtol = 1e-6
-        self.atol = 1e-8
-        self.miter = 100
+        self.rtol = rtol
+        self.atol = atol
+        self.miter = miter
         self.verbose = verbose
 
     def add_panel(self, weights, ri, h, metal_temp, material):
